@@ -519,8 +519,6 @@ def run(tier, seed):
     else:
         tasks += _exh_tasks(3, full, 1, 1)
         tasks += _exh_tasks(3, full, 2, 32)
-        tasks += _exh_tasks(2, full, 3, 128)
-        tasks += _exh_tasks(3, small, 3, 256)
         tasks += _exh_tasks(3, full, 3, 2048, orbit=True, seed=seed)
         tasks += _exh_tasks(2, small, 4, 512)
         for i in range(64):
@@ -528,8 +526,7 @@ def run(tier, seed):
         for i in range(64):
             tasks.append(("rnd", 4, full, 5, 100, seed * 1000 + 500 + i))
         bound = common + (
-            "EXHAUSTIVE multisets of <=2 rules (3 classes, shifts -2..2); EXHAUSTIVE 3-rule multisets over 2 classes "
-            "with shifts -2..2 and over 3 classes with shifts -1..1; EXHAUSTIVE 3-rule multisets over 3 classes with "
+            "EXHAUSTIVE multisets of <=2 rules (3 classes, shifts -2..2); EXHAUSTIVE 3-rule multisets over 3 classes with "
             "shifts -2..2, one representative per orbit of class renaming (presented under a seeded renaming); "
             "EXHAUSTIVE 4-rule multisets over 2 classes with shifts -1..1; SEEDED 96000 4-rule multisets over 3 classes "
             "and 6400 5-rule multisets over 4 classes, shifts -2..2")
